@@ -4,6 +4,11 @@ import json, subprocess
 
 CHECKS = {
  # id: (level, technique, text, note, design_ref)
+ "C13": ("model_checking",
+         "explicit-state exploration of the challenger state machine (all observe/get sequences up to a depth) against a reference duplex-sponge model, step-by-step conformance on the real Challenger / RecursiveChallenger; bounded exhaustive state enumeration for the permutation layers against textbook Poseidon",
+         "Every optimised Poseidon layer and the full permutation on 3^12 uniform-extreme states, all <=2-lane deviations over the representation alphabet from three base states and uniform/single-lane states, against a textbook round-by-round Poseidon on u128 arithmetic (anchored on the published test vectors); all message lengths 0..=40 x output counts for the sponge/compression functions; the challenger explored as a transition system: every sequence in {observe, get}^<=d (Poseidon and Keccak permutations) plus macro-operations, each step compared with a list-based duplex model, and every sequence up to a smaller depth replayed on the in-circuit RecursiveChallenger. Run in the checked profile.",
+         "trusted: textbook Poseidon + list-based duplex model in harness/src/c13.rs (anchored on published test vectors); states outside the enumerated alphabets are not covered",
+         "DESIGN.md §4 C13"),
  "C14": ("exploration",
          "bounded exhaustive enumeration of operator x representation-alphabet tuples + BFS closure over raw representations, oracle = harness bigint arithmetic",
          "Every scalar operator of GoldilocksField on every pair/triple of the branch-derived representation alphabet R (75 raw u64 values incl. non-canonical ones), a BFS closure feeding results back as operands, the D=2,4,5 extensions against schoolbook arithmetic mod X^D-W on coordinate alphabets, batch inversion for every length 0..13 and the packed field lane by lane; run in the checked profile so that a false `assume` is a panic. Exhaustive inside the stated alphabets; the 2^128 operand pairs of the quantifier are out of reach of enumeration.",
